@@ -1,12 +1,13 @@
 SPECIFICATION Spec
 CONSTANTS
   Variant = "repaired"
-  CompInits <- CompInitsAll
+  CompInits <- CompInitsQ
   LocoInits <- None
   LoadFiles <- None
   CompOps <- CompOpsAll
   LocoOps <- LocoOpsQ
   Targets <- One
+  Near = TRUE
   MaxOps = 3
 INVARIANT ComponentConsistent
 INVARIANT LocoConsistent
